@@ -192,7 +192,7 @@ EvalExpr(S, n, rest) ==
       [] e.k = "conv"  -> [S EXCEPT !.ctl = <<ExprI(e.x), [k |-> "conv", to |-> e.to]>> \o rest]
       [] e.k = "call"  -> [S EXCEPT !.ctl = ExprItems(e.args) \o <<[k |-> "docall", fn |-> e.fn, nargs |-> Len(e.args), spread |-> e.spread, line |-> e.line]>> \o rest]
       [] e.k = "callv" -> [S EXCEPT !.ctl = <<ExprI(e.f)>> \o ExprItems(e.args) \o <<[k |-> "docallv", nargs |-> Len(e.args), spread |-> e.spread, line |-> e.line]>> \o rest]
-      [] e.k = "mcall" -> [S EXCEPT !.ctl = <<ExprI(e.x)>> \o ExprItems(e.args) \o <<[k |-> "domcall", m |-> e.m, nargs |-> Len(e.args), spread |-> e.spread, line |-> e.line]>> \o rest]
+      [] e.k = "mcall" -> [S EXCEPT !.ctl = <<ExprI(e.x)>> \o ExprItems(e.args) \o <<[k |-> "domcall", m |-> e.m, sty |-> e.sty, nargs |-> Len(e.args), spread |-> e.spread, line |-> e.line]>> \o rest]
       [] e.k = "mval"  -> [S EXCEPT !.ctl = <<ExprI(e.x), [k |-> "domval", m |-> e.m, line |-> e.line]>> \o rest]
       [] e.k = "index" -> [S EXCEPT !.ctl = <<ExprI(e.x), ExprI(e.i), [k |-> "doindex", line |-> e.line]>> \o rest]
       [] e.k = "mapget" -> [S EXCEPT !.ctl = <<ExprI(e.x), ExprI(e.i), [k |-> "domapget", zero |-> e.zero, ok |-> e.ok]>> \o rest]
@@ -374,8 +374,10 @@ Steps(S) ==
             LET recv == S.vals[it.nargs + 1]
                 args == TopN(S.vals, it.nargs)
                 S2 == [S EXCEPT !.vals = DropN(@, it.nargs + 1)]
-            IN Ret(IF recv.t # "ptr" \/ recv.id = 0 THEN PanicState([S2 EXCEPT !.ctl = rest], "nil pointer dereference", it.line)
-                   ELSE EnterCall(S2, S.heap[recv.id].sty \o "." \o it.m, <<recv>> \o args, it.spread, it.line, rest))
+            \* a method of a pointer type may be called on a nil pointer (it.sty = static struct type of the
+            \* receiver expression, "" for interface-typed receivers, which panic when nil)
+            IN Ret(IF recv.t # "ptr" \/ (recv.id = 0 /\ it.sty = "") THEN PanicState([S2 EXCEPT !.ctl = rest], "nil pointer dereference", it.line)
+                   ELSE EnterCall(S2, (IF recv.id = 0 THEN it.sty ELSE S.heap[recv.id].sty) \o "." \o it.m, <<recv>> \o args, it.spread, it.line, rest))
       [] it.k = "domval" ->
             Ret(IF v1.t # "ptr" \/ v1.id = 0 THEN PanicState([S EXCEPT !.ctl = rest], "nil pointer dereference", it.line)
                 ELSE [S EXCEPT !.vals = <<BoundV(S.heap[v1.id].sty \o "." \o it.m, v1)>> \o DropN(@, 1), !.ctl = rest])
